@@ -1248,6 +1248,7 @@ func runC11(c *Check) {
 	ruleSubmissionWhole(c, sp, "C11-R8")
 	ruleBlockSaveAtomic(c, p, "C11-R9")
 	ruleNoBatchUseAfterCommit(c, p, "C11-R10", rootPath+"/block")
+	ruleDASubmitTakesAPrefix(c, []*Prog{c.Mod(ModCore), c.Mod(ModDA)}, "C11-R11")
 	ruleBasedHandOffCompletes(c, "C11-R7")
 	c.MinInstances("C11-R6", 1)
 	c.MinInstances("C11-R1", 2)
